@@ -66,13 +66,17 @@ ExtSigs0 == {[params |-> ps, results |-> rs, use |-> "extend"] :
    different packages x1/ext, x2/ext that share the package name `ext` (doc comments are looked up per package).              *)
 \* tabsep: a tab instead of the blank between the setting name and its value (`goverter:context<TAB>ctx`): the value is the text after
 \* the first *space*, so this line names the unknown setting "context\tctx" and is not the context setting
-DocLayouts == {"line", "directive", "block", "tab", "prose", "detached", "trailing", "tabsep"}
+\* longline: the setting line follows a comment line of 70 000 characters (longer than a default bufio.Scanner token)
+DocLayouts == {"line", "directive", "block", "tab", "prose", "detached", "trailing", "tabsep", "longline"}
 NotSetting == {"prose", "detached", "trailing", "tabsep"}
 HasCtxDecl(s) == \E i \in DOMAIN s.params : s.params[i] = "ctxdecl"
 ExtSigs == {[params |-> s.params, results |-> s.results, use |-> "extend", layout |-> "line", place |-> pl] : s \in ExtSigs0, pl \in {"local", "x1", "x2", "regex", "typename"}}
            \* regex: selected by a pattern (goverter:extend F12x?) instead of its name; typename: the name denotes a declared func *type*
            \* (type F12 func(...) ...), not a function: it must be rejected whatever its signature
            \cup {[params |-> s.params, results |-> s.results, use |-> "extend", layout |-> l, place |-> "local"] : s \in {x \in ExtSigs0 : HasCtxDecl(x)}, l \in DocLayouts}
+           \* methoddoc: the function has no doc comment; a *method* of the same name on some type carries `goverter:context source` and
+           \* `goverter:context other` -- doc comments of other declarations are not settings of this function
+           \cup {[params |-> s.params, results |-> s.results, use |-> "extend", layout |-> "line", place |-> "methoddoc"] : s \in {x \in ExtSigs0 : ~HasCtxDecl(x)}}
 \* what the parameter list means once the doc comment has been read: without the setting line the parameter is a plain one
 AsPlain(s) == [s EXCEPT !.params = [i \in DOMAIN s.params |-> IF s.params[i] = "ctxdecl" THEN "src2" ELSE s.params[i]]]
 Eff(s) == IF s.layout \in NotSetting THEN AsPlain(s) ELSE s
